@@ -162,16 +162,24 @@ type env struct {
 	mu     sync.Mutex
 	known  []string       // ids returned by successful adds, in creation order (scenario choices must not depend on generated ids)
 	fresh  map[int]string // ids added by the callers of the current burst round, by caller
-	dead   bool     // the session panicked inside Close: the trace ends
+	dead   bool // the trace is abandoned: the session panicked inside Close, or the environment failed
+	closed bool // Close was attempted (it must not be called twice)
 }
 
+// freeTCPPort picks a free port below the ephemeral range (the RPC server is restarted on the same port at every reopen:
+// a port from the ephemeral range could be handed to somebody else in between).
 func freeTCPPort() int {
-	l, err := net.Listen("tcp4", "127.0.0.1:0")
-	if err != nil {
-		panic(err)
+	rng := rand.New(rand.NewSource(time.Now().UnixNano() + int64(os.Getpid())*104729))
+	for i := 0; i < 500; i++ {
+		p := 10000 + rng.Intn(20000)
+		l, err := net.Listen("tcp4", fmt.Sprintf("127.0.0.1:%d", p))
+		if err != nil {
+			continue
+		}
+		l.Close()
+		return p
 	}
-	defer l.Close()
-	return l.Addr().(*net.TCPAddr).Port
+	panic("no free tcp port")
 }
 
 func newEnv(T *tracer, rng *rand.Rand, pool []*meta, nports int, useRPC bool) *env {
@@ -213,7 +221,7 @@ func (e *env) open() error {
 }
 
 func (e *env) cleanup() {
-	if e.s != nil && !e.dead {
+	if e.s != nil && !e.closed {
 		func() {
 			defer func() { recover() }()
 			e.s.Close()
@@ -297,6 +305,9 @@ func (e *env) liveRec(t *torrent.Torrent) ev {
 
 // obs logs the registry at a quiescent point.
 func (e *env) obs() {
+	if e.dead { // the trace was abandoned (environment failure or a panic inside Close): nothing more is recorded
+		return
+	}
 	v := torrent.VerifC14Snapshot(e.s)
 	live := []ev{}
 	lt := e.s.ListTorrents()
@@ -398,11 +409,17 @@ func (e *env) callAdd(g int, a addSpec) {
 		}
 		if err != nil {
 			res = classify(err)
+			if e.useRPC && res == "err" && !strings.HasPrefix(err.Error(), "{\"code\"") {
+				res = "env"
+			}
 			if a.kind == "bad" && res == "err" { // through RPC the input error is a jsonrpc2 error (code 2) with the parser's text
 				res = "bad"
 			}
 		}
 	}()
+	if res == "env" {
+		e.dead = true
+	}
 	e.T.emit(ev{"op": "ret", "g": g, "res": res, "id": id, "port": port, "at": at})
 	if res == "ok" {
 		e.mu.Lock()
@@ -426,6 +443,10 @@ func classify(err error) string {
 		return "storage"
 	case strings.Contains(s, "torrent not found"):
 		return "notfound"
+	case strings.Contains(s, "connection refused") || strings.Contains(s, "i/o timeout") || strings.Contains(s, "Client.Timeout") ||
+		strings.Contains(s, "address already in use") || strings.Contains(s, "deadline exceeded") || strings.Contains(s, "locked by another process"):
+		// the environment (loaded machine, port taken by another process), not the session: the trace is abandoned
+		return "env"
 	case strings.HasSuffix(s, "EOF") || strings.Contains(s, "connection reset") || strings.Contains(s, "broken pipe"):
 		// RPC: the handler panicked, net/http recovered it and dropped the connection
 		return "panic"
@@ -447,11 +468,11 @@ func (e *env) simple(g int, name, id string, extra ev, f func() error, frpc func
 		c[k] = v
 	}
 	e.T.emit(c)
-	res := "ok"
+	res, msg := "ok", ""
 	func() {
 		defer func() {
 			if r := recover(); r != nil {
-				res = "panic"
+				res, msg = "panic", fmt.Sprint(r)
 			}
 		}()
 		var err error
@@ -461,10 +482,19 @@ func (e *env) simple(g int, name, id string, extra ev, f func() error, frpc func
 			err = f()
 		}
 		if err != nil {
-			res = classify(err)
+			res, msg = classify(err), err.Error()
+			if e.useRPC && frpc != nil && res == "err" && !strings.HasPrefix(msg, "{\"code\"") {
+				res = "env" // not an answer of the session but a transport failure we cannot attribute
+			}
 		}
 	}()
-	e.T.emit(ev{"op": "ret", "g": g, "res": res, "id": id, "port": 0, "at": "0"})
+	if res == "env" {
+		e.dead = true
+	}
+	if len(msg) > 200 {
+		msg = msg[:200]
+	}
+	e.T.emit(ev{"op": "ret", "g": g, "res": res, "id": id, "port": 0, "at": "0", "msg": msg})
 	return res
 }
 
@@ -603,8 +633,9 @@ func (e *env) callReopen(g int, corrupt []string) {
 				e.dead = true
 			}
 		}()
+		e.closed = true
 		if err := e.s.Close(); err != nil {
-			res = "err"
+			res = classify(err)
 		}
 	}()
 	if res == "ok" {
@@ -614,8 +645,10 @@ func (e *env) callReopen(g int, corrupt []string) {
 			}
 		}
 		if err := e.open(); err != nil {
-			res = "err"
+			res = classify(err)
 			e.dead = true
+		} else {
+			e.closed = false
 		}
 	}
 	e.T.emit(ev{"op": "ret", "g": g, "res": res, "id": "", "port": 0, "at": "0"})
@@ -667,6 +700,9 @@ func (e *env) randOp(g int, concurrent bool) func() {
 	switch {
 	case x < 34:
 		a := e.randAdd()
+		if concurrent && a.id != "" && a.id != "z" {
+			a.id = fmt.Sprintf("g%d", g) // ordinary bursts keep concurrent adds on distinct ids (burst-sameid is the collision class)
+		}
 		return func() { e.callAdd(g, a) }
 	case x < 52:
 		id := e.someID()
